@@ -11,8 +11,8 @@ import time
 from harness.core import z, coq_list, coq_bool, coq_opt, coq_str
 
 PID = "C19"
-GEN_GROUPS = ["EvseZ"]
-TARGETS = ["coq/Props/C19.vo", "coq/Model/StochNet.vo"]
+GEN_GROUPS = ["EvseZ", "StochNet"]
+TARGETS = ["coq/Props/C19.vo", "coq/Model/StochNet.vo", "coq/Proofs/StochNetGen.vo"]
 CASES = {"quick": 260, "thorough": 4000}
 CORR_HEADER = ("From Coq Require Import ZArith List String.\n"
                "From ACN Require Import Base.Num Model.StochNet.\nImport ListNotations.\n"
